@@ -172,8 +172,7 @@ TABLE += [
             'rule: ipaddress_type address;\\s*IMS_read_obj\\(&stream, &\\(?address\\)?, sizeof\\(address\\)\\);\\s*this->sources_\\.push_back\\(address\\); ==> { V6 address = IMS_read_v6(&stream); (void)address; }\n'
             'rule: ICMPv6_parse_options\\(this, stream\\) ==> ICMPv6_parse_options((struct ICMPv6_s*)this, &stream)\n'
             'rule: ICMPv6_try_parse_extensions\\(this, stream\\) ==> ICMPv6_try_parse_extensions(this, &stream)',
-      loops='loop 0:\n__CPROVER_assigns(i, stream)\n__CPROVER_loop_invariant(i <= record_count && ' + SI + ')\n__CPROVER_decreases(record_count - i)\nend\nloop 1:\n__CPROVER_assigns(sources_count, stream)\n__CPROVER_loop_invariant(sources_count >= 0 && sources_count <= 65535 && ' + SI + ')\n__CPROVER_decreases(sources_count)\nend',
-      mutant='mutant: if \\(stream\\) \\{\\s*inner_pdu ==> { inner_pdu'),
+      loops='loop 0:\n__CPROVER_assigns(i, stream)\n__CPROVER_loop_invariant(i <= record_count && ' + SI + ')\n__CPROVER_decreases(record_count - i)\nend\nloop 1:\n__CPROVER_assigns(sources_count, stream)\n__CPROVER_loop_invariant(sources_count >= 0 && sources_count <= 65535 && ' + SI + ')\n__CPROVER_decreases(sources_count)\nend'),
 ]
 
 
